@@ -376,7 +376,7 @@ def explore(ctx, n_rulesets, lo, hi, budget, pops, dist, samples):
     return vio
 
 
-def small_cases(ctx, n, lo=10, hi=28):
+def small_cases(ctx, n, lo=16, hi=40):
     """scaled-down instances for the model: (ruleset, loaded grammar, saved probability, the whole resumed stream)"""
     sc = common.scratch()
     out = []
@@ -384,7 +384,7 @@ def small_cases(ctx, n, lo=10, hi=28):
         rs = gen_ruleset(ctx.rng, lo, hi)
         grid = Grid(rs)
         g = impl_next.load_grammar(rs, sc, True, False, "Grammar")
-        bi, vec, m, above = pick_cut(ctx.rng, grid, 10 ** 9, True, tries=3)
+        bi, vec, m, above = pick_cut(ctx.rng, grid, 10 ** 9, True, tries=2)
         q, _, _ = restore_queue(g, impl_next.resume_config(m))
         B = []
         while True:
@@ -392,7 +392,7 @@ def small_cases(ctx, n, lo=10, hi=28):
             if it is None:
                 break
             B.append(item_of(it))
-        if 0 < len(B) <= 400:
+        if 0 < len(B) <= 500:
             out.append((rs, g, m, B))
     return out
 
